@@ -1,6 +1,8 @@
 import PyIpmi.Props.C09
 #print axioms PyIpmi.Props.C09.send_message_layer
 #print axioms PyIpmi.Props.C09.peel_all
+#print axioms PyIpmi.Props.C09.reroute_last
+#print axioms PyIpmi.Props.C09.reroute_peel_all
 #print axioms PyIpmi.Props.C09.direct_when_single_hop
 #print axioms PyIpmi.Props.C09.bridged_is_bytes
 #print axioms PyIpmi.Props.C09.unwrap_wrap
